@@ -50,6 +50,19 @@ def gen(ctx):
             pairs.append((random_sig(rng, 'abcd', 3), random_sig(rng, 'cdef', 3)))
         else:
             pairs.append((rng.choice(U3), rng.choice(U3)))
+    # an ordinary inner parameter spelled like a star parameter of the outer signature (the
+    # threading.Thread(target, args=(), kwargs=None) convention): the forwarded star does not survive
+    # into the result, its name is free
+    from core import id_of_name
+    for _ in range(1500 if ctx.quick else 20000):
+        o = random_sig(rng, 'abc', 3, star_names=(('args', 'kwargs'),))
+        i = random_sig(rng, 'def', 3, star_names=(('va', 'vk'), ('args', 'kwargs')))
+        named = [j for j, q in enumerate(i) if q[1] in ('PO', 'PK', 'KO')]
+        new = id_of_name(rng.choice(['args', 'kwargs']))
+        if named and not any(q[0] == new for q in i):
+            j = rng.choice(named)
+            i = i[:j] + [(new,) + tuple(i[j][1:])] + i[j + 1:]
+        pairs.append((o, i))
     triples = []
     for _ in range(4000 if ctx.quick else 60000):
         triples.append((random_sig(rng, 'ab', 2), random_sig(rng, 'cd', 2), random_sig(rng, 'ef', 2)))
